@@ -20,7 +20,7 @@ def register(file, qualname, inst_name, inst, contract, specs=None, callees=None
     # every kernel with a frame clause (`frozen`: arrays it must not write, discharged as `frame` obligations at every store) serves C19
     # (the two heaviest rolling kernels serve C19 through one instantiation each, to keep the quick tier of C19 short)
     heavy = qualname in ("_rolling_max_or_min_1d", "_rolling_sum_or_mean_1d") and not inst_name.startswith(("float,chunked,mask=None,max", "float,chunked,mask=None,sum"))
-    if contract.get("frozen") and "C19" not in props and not heavy: props += ("C19",)
+    if contract.get("frozen") and "C19" not in props and not heavy and not contract.get("no_auto_props"): props += ("C19",)
     RECORDS.append(dict(file=file, qualname=qualname, inst_name=inst_name, inst=inst, contract=contract, specs=specs, callees=callees or {},
                         props=props, extra_hyps=extra_hyps, setup=setup, lemma_deps=tuple(lemma_deps), thorough_only=thorough_only))
 
